@@ -9,7 +9,7 @@ def run(ctx: Ctx) -> int:
     n = ctx.pick(60, 800)
     from lib import e4_corpus
     nfixed = len(e4_corpus.corpus("c05", n, ctx.seed)) - n       # fixed programs + array-flavoured generated ones, all outside the regions
-    jobs = e4_check.jobs_for(ctx, "c05", n, batch=1, timeout=ctx.pick(240, 1200), total=n + nfixed, single_upto=12)
+    jobs = e4_check.jobs_for(ctx, "c05", n, batch=1, timeout=ctx.pick(150, 1200), total=n + nfixed, single_upto=12)
     for region, key in (("hoist-order", KEY_H), ("chain-middle", KEY_C)):
         want = ctx.pick(6, 30)
         have = len(e4_corpus.corpus("c05", want, ctx.seed, region))     # the generator may find fewer programs inside a region
@@ -36,11 +36,11 @@ def run(ctx: Ctx) -> int:
         jobs += e4_check.jobs_for(ctx, "c05", 6, batch=1, timeout=ctx.pick(200, 600), region=region, key=key, total=have,
                                   harness="harness/E5_equiv.py", fn="h_equiv5")
     # stage 2 (E5): the same programs through the *checked* CFGs of the real front end (operator resolution, coercions, iterator protocol, 64-bit arithmetic)
-    jobs += e4_check.jobs_for(ctx, "c05", n, batch=1, timeout=ctx.pick(300, 1500), total=n + nfixed, harness="harness/E5_equiv.py", fn="h_equiv5", single_upto=12,
+    jobs += e4_check.jobs_for(ctx, "c05", n, batch=1, timeout=ctx.pick(200, 1500), total=n + nfixed, harness="harness/E5_equiv.py", fn="h_equiv5", single_upto=12,
                               upto=ctx.pick(30, 400))
     # stage 3 (E7): the same programs through the HUGR that /repo's back end emits for them (lib/e7.py); the two subscript-order findings are
     # decided by the back end, so they are probed at this level as well
-    jobs += e4_check.jobs_for(ctx, "c05", n, batch=1, timeout=ctx.pick(300, 1500), total=n + nfixed, harness="harness/E7_equiv.py", fn="h_equiv7", single_upto=12,
+    jobs += e4_check.jobs_for(ctx, "c05", n, batch=1, timeout=ctx.pick(200, 1500), total=n + nfixed, harness="harness/E7_equiv.py", fn="h_equiv7", single_upto=12,
                               upto=ctx.pick(30, 300))
     for region, key in (("subscript-order", "C05:subscript-of-temporary-evaluates-index-before-container"),
                         ("nested-subscript-order", "C05:nested-subscript-evaluates-outer-index-first")):
